@@ -30,6 +30,8 @@ func main() {
 		err = l0Conc(os.Args[2:])
 	case "l1-conc":
 		err = l1Conc(os.Args[2:])
+	case "l1-nonce":
+		err = l1Nonce(os.Args[2:])
 	default:
 		err = dispatchExtra(os.Args[1], os.Args[2:])
 	}
@@ -348,5 +350,83 @@ func l1Conc(args []string) error {
 		}
 	}
 	fmt.Printf("{\"traces\":%d,\"events\":%d}\n", k, events)
+	return nil
+}
+
+
+// l1-nonce: execute replay schedules (ndjson: {"name":..., "ops":[...]}) on production-wired instances.
+func l1Nonce(args []string) error {
+	fs := flag.NewFlagSet("l1-nonce", flag.ExitOnError)
+	in := fs.String("sched", "sched.ndjson", "schedules")
+	out := fs.String("out", "nonce-trace", "trace output prefix")
+	shards := fs.Int("shards", 1, "trace files")
+	scratch := fs.String("scratch", "", "scratch dir")
+	_ = fs.Parse(args)
+	sd := scratchDir(*scratch)
+	if *scratch == "" {
+		defer os.RemoveAll(sd)
+	}
+	inf, err := os.Open(*in)
+	if err != nil {
+		return err
+	}
+	defer inf.Close()
+	type sched struct {
+		Name string       `json:"name"`
+		Ops  []l1.NonceOp `json:"ops"`
+	}
+	var all []sched
+	sc := bufio.NewScanner(inf)
+	sc.Buffer(make([]byte, 1<<20), 1<<26)
+	for sc.Scan() {
+		if len(sc.Bytes()) == 0 {
+			continue
+		}
+		var s sched
+		if err := json.Unmarshal(sc.Bytes(), &s); err != nil {
+			return err
+		}
+		all = append(all, s)
+	}
+	files := make([]*os.File, *shards)
+	for i := range files {
+		name := *out
+		if *shards > 1 {
+			name = fmt.Sprintf("%s.%d", *out, i)
+		}
+		f, err := os.Create(name)
+		if err != nil {
+			return err
+		}
+		defer f.Close()
+		files[i] = f
+	}
+	// instances listen on ephemeral loopback ports; run shards in parallel
+	var wg sync.WaitGroup
+	errs := make([]error, *shards)
+	counts := make([]int, *shards)
+	for i := 0; i < *shards; i++ {
+		wg.Add(1)
+		go func(i int) {
+			defer wg.Done()
+			for k := i; k < len(all); k += *shards {
+				n, err := l1.RunNonce(files[i], sd, all[k].Name, all[k].Ops)
+				if err != nil {
+					errs[i] = fmt.Errorf("%s: %w", all[k].Name, err)
+					return
+				}
+				counts[i] += n
+			}
+		}(i)
+	}
+	wg.Wait()
+	events := 0
+	for i := range errs {
+		if errs[i] != nil {
+			return errs[i]
+		}
+		events += counts[i]
+	}
+	fmt.Printf("{\"traces\":%d,\"events\":%d}\n", len(all), events)
 	return nil
 }
